@@ -245,6 +245,13 @@ class TermEval:
             return self.atom("%s(%s)" % (d, ",".join(self.text(a) for a in e.args)))
         if d in ("torch.abs", "abs") and len(e.args) == 1:
             return self.atom("abs(%s)" % canon(self.ev(e.args[0])))
+        # element-wise functions that are not the identity on the reals: kept as *interpreted* symbols, so a term that wraps
+        # a quantity in one of them is known to differ from the bare quantity
+        if d in ("torch.clamp", "torch.clip", "torch.relu", "torch.sigmoid", "torch.tanh", "torch.sign", "torch.round", "torch.floor",
+                 "torch.ceil", "torch.exp", "torch.log", "torch.sqrt", "torch.nan_to_num", "F.relu", "torch.nn.functional.relu") and e.args:
+            name = d.split(".")[-1]
+            rest = ",".join(self.text(a) for a in e.args[1:])
+            return self.atom("%s(%s;%s;%s)" % (name, canon(self.ev(e.args[0])), rest, self.kw(e)))
         if d == "torch.where" and len(e.args) == 3:
             return self.atom("where(%s,%s,%s)" % tuple(canon(self.ev(a)) for a in e.args))
         if d in ("torch.mean", "torch.sum", "torch.max", "torch.min", "numpy.mean", "numpy.sum", "torch.zeros_like",
@@ -264,6 +271,10 @@ class TermEval:
                 return base
             if m == "reciprocal" and not e.args:
                 return Rat.const(1) / base
+            if m in ("clamp", "clip", "relu", "sigmoid", "tanh", "sign", "round", "floor", "ceil", "exp", "log", "sqrt", "nan_to_num",
+                     "clamp_", "clip_"):
+                rest = ",".join(self.text(a) for a in e.args)
+                return self.atom("%s(%s;%s;%s)" % (m.rstrip("_"), canon(base), rest, self.kw(e)))
         return self.atom(unparse(e), opaque=True)
 
     # statements: straight-line assignment / augmented assignment on names
